@@ -41,10 +41,12 @@ def opt(n):
 def rust_round(x):
     if x != x or x in (math.inf, -math.inf):
         return x
-    r = math.floor(abs(x) + 0.5)
-    if abs(x) >= 2.0 ** 52:
-        r = abs(x)
-    return math.copysign(r, x)
+    # half away from zero, computed without rounding: |x| - floor(|x|) is exact for doubles (|x| + 0.5 is not: it turns
+    # 0.49999999999999994 into 1.0 and the odd integers of [2^52, 2^53) into their successors)
+    r = math.floor(abs(x))
+    if abs(x) - r >= 0.5:
+        r += 1
+    return math.copysign(float(r), x)
 
 
 def parse_int_like(s, radix, lo, hi):
@@ -477,7 +479,9 @@ def marker_ambiguous(c):
 def num_calls(tier):
     out = []
     recvs = num.boundary("int", tier) + num.boundary("bigint", tier) + num.boundary("byte", tier) + \
-        [Num("float", v) for v in (0.0, 0.5, -0.5, 1.5, 2.5, -2.5, 3.49999, 3.5, -3.5, 1e15 + 0.5, 2147483647.9, 2147483648.0, -2147483648.9, 3e9, 1e19, 1e30, -1e30, 1e300, 255.9, 256.0, -0.9, 9007199254740993.0)]
+        [Num("float", v) for v in (0.0, 0.5, -0.5, 1.5, 2.5, -2.5, 3.49999, 3.5, -3.5, 1e15 + 0.5, 2147483647.9, 2147483648.0, -2147483648.9, 3e9, 1e19, 1e30, -1e30, 1e300, 255.9, 256.0, -0.9, 9007199254740993.0,
+                                    0.49999999999999994, -0.49999999999999994, 0.5000000000000001, 1.4999999999999998, 2.0 ** 52 + 1, 2.0 ** 52 + 0.5, 2.0 ** 53 - 1, -(2.0 ** 52 + 1), 2.0 ** 51 + 0.5,
+                                    4503599627370495.5, 0.1, 1e-300, 5e-324, 123456789.5, -123456789.5)]
     for x in recvs:
         for m in ("to_int", "to_bigint", "to_byte", "to_float", "abs", "to_str", "sqrt"):
             if m == "sqrt" and x.v < 0:
